@@ -9,8 +9,8 @@ from . import common, tools
 
 ID = "C13"
 LEVEL = "fault_enumeration"
-BUDGET = {"quick": 400, "thorough": 6400}
-WALL_CAP = {"quick": 400, "thorough": 3300}
+BUDGET = {"quick": 4800, "thorough": 48000}
+WALL_CAP = {"quick": 600, "thorough": 5400}
 TOOLS = ["colander", "combine", "chef", "mandoline", "whip", "marinate", "chk2plt",
          "taste", "menu", "minuterie", "pestle"]
 RULE = ("case = tool in {colander, combine, chef(user recipe), mandoline(array/plotfile), whip, marinate, chk2plt, "
